@@ -1,1 +1,345 @@
-From Verif Require Import Lib.Base Model.C10_ExecConfig Proofs.C10.
+(* C10 — proposer settings follow the documented precedence of the execution config.
+   Property theorems only (proofs in Proofs/C10.v and Proofs/C10_Json.v).
+
+   Model: Model/C10_ExecConfig.v.  [proposer_config_v2] / [proposer_config_v1] follow the code
+   statement by statement (base options, first matching entry, proposer-level overwrite,
+   reset, update / remove / add of relays); [resolve_v2] / [resolve_v1] are the documented
+   precedence.  Relay maps are key-unique association lists ([wf_config2]: Go maps). *)
+From Verif Require Import Lib.Base Model.C10_ExecConfig Proofs.C10 Proofs.C10_Json Check.C10 Proofs.C10_Check.
+From Coq Require Import Permutation.
+
+(* ------------------------------------------------------------------------------------------- *)
+(* Version 2: the mutation order of the code IS the documented precedence, for every
+   configuration, validator and fallback — relay for relay, field for field, in the same order
+   when the maps are iterated in list order. *)
+Theorem C10_v2_is_resolve :
+  forall (c : config2) (v : validator) (fbfee fbgas : N),
+    wf_config2 c -> proposer_config_v2 c v fbfee fbgas = resolve_v2 c v fbfee fbgas.
+Proof. exact v2_is_resolve. Qed.
+Print Assumptions C10_v2_is_resolve.
+
+(* ... and whatever order Go iterates the relay maps in, the outcome is the same error or the same
+   fee recipient with a permutation of the same relay list. *)
+Theorem C10_v2_map_order_irrelevant :
+  forall (c c' : config2) (v : validator) (fbfee fbgas : N),
+    wf_config2 c -> config2_equiv c c' ->
+    opt_cfg_equiv (proposer_config_v2 c v fbfee fbgas) (proposer_config_v2 c' v fbfee fbgas).
+Proof. exact v2_order_irrelevant. Qed.
+Print Assumptions C10_v2_map_order_irrelevant.
+
+(* The precedence, said as a set of relays: with [p] the applicable proposer entry, the fee
+   recipient is the first defined of proposer / top level / fallback; every relay address occurs
+   at most once; the relays are exactly those inherited from the relay level (none after
+   reset_relays) or named by the entry, minus the disabled ones; and each carries, per field,
+   the first defined of proposer-relay, proposer, base-relay, top level, fallback
+   ([resolve_relay], which is literally that chain). *)
+Theorem C10_v2_relay_set :
+  forall (c : config2) (p : proposer) (fbfee fbgas : N),
+    NoDup (keys (e_relays c)) -> wf_proposer p ->
+    let out := resolve_with c p fbfee fbgas in
+    pc_fee out = first_some [p_fee p; e_fee c] fbfee /\
+    NoDup (map rc_addr (pc_relays out)) /\
+    forall r, In r (pc_relays out) <->
+              ((In (rc_addr r) (keys (inherited c p)) \/ In (rc_addr r) (keys (p_relays p))) /\
+               relay_disabled p (rc_addr r) = false /\
+               r = resolve_relay c p fbfee fbgas (rc_addr r)).
+Proof. exact resolve_with_relays. Qed.
+Print Assumptions C10_v2_relay_set.
+
+(* Only the FIRST matching proposer entry counts: the entries before it (none matching) and all
+   entries after it (matching or not, valid or not) have no influence at all. *)
+Theorem C10_first_match_only :
+  forall (c : config2) (pre : list proposer) (p : proposer) (post : list proposer)
+         (v : validator) (fbfee fbgas : N),
+    wf_config2 c -> e_props c = pre ++ p :: post ->
+    Forall (fun q => matches q v = MNo) pre -> matches p v = MYes ->
+    proposer_config_v2 c v fbfee fbgas = Some (resolve_with c p fbfee fbgas).
+Proof. exact v2_first_match_only. Qed.
+Print Assumptions C10_first_match_only.
+
+(* No entry matches: relay-level and top-level defaults over the fallback, nothing else. *)
+Theorem C10_no_match_defaults :
+  forall (c : config2) (v : validator) (fbfee fbgas : N),
+    wf_config2 c -> Forall (fun q => matches q v = MNo) (e_props c) ->
+    proposer_config_v2 c v fbfee fbgas = Some (resolve_with c empty_proposer fbfee fbgas).
+Proof. exact v2_no_match. Qed.
+Print Assumptions C10_no_match_defaults.
+
+(* The lookup fails exactly when an entry with neither account nor non-zero key is reached
+   before any match. *)
+Theorem C10_v2_error_iff :
+  forall (c : config2) (v : validator) (fbfee fbgas : N),
+    wf_config2 c ->
+    (proposer_config_v2 c v fbfee fbgas = None <->
+     exists pre q post, e_props c = pre ++ q :: post /\
+                        Forall (fun q => matches q v = MNo) pre /\ p_sel q = SelKey 0).
+Proof. exact v2_error_iff. Qed.
+Print Assumptions C10_v2_error_iff.
+
+(* reset_relays discards everything the relay level says: the outcome does not depend on it. *)
+Theorem C10_reset_discards_inherited :
+  forall (c : config2) (p : proposer) (rs : list (N * base_relay)) (fbfee fbgas : N),
+    p_reset p = true ->
+    resolve_with (with_relays c rs) p fbfee fbgas = resolve_with c p fbfee fbgas.
+Proof. exact reset_discards_inherited. Qed.
+Print Assumptions C10_reset_discards_inherited.
+
+(* a relay the entry disables is not used, inherited or not *)
+Theorem C10_disabled_removed :
+  forall (c : config2) (p : proposer) (fbfee fbgas a : N) (pr : prop_relay),
+    aget (p_relays p) a = Some pr -> pr_disabled pr = true ->
+    ~ In a (map rc_addr (pc_relays (resolve_with c p fbfee fbgas))).
+Proof. exact disabled_removed. Qed.
+Print Assumptions C10_disabled_removed.
+
+(* a relay the entry names and does not disable is used, new or inherited *)
+Theorem C10_named_relay_present :
+  forall (c : config2) (p : proposer) (fbfee fbgas a : N) (pr : prop_relay),
+    aget (p_relays p) a = Some pr -> pr_disabled pr = false ->
+    In (resolve_relay c p fbfee fbgas a) (pc_relays (resolve_with c p fbfee fbgas)).
+Proof. exact named_relay_present. Qed.
+Print Assumptions C10_named_relay_present.
+
+(* an inherited relay stays unless reset or disabled *)
+Theorem C10_inherited_relay_present :
+  forall (c : config2) (p : proposer) (fbfee fbgas a : N),
+    In a (keys (e_relays c)) -> p_reset p = false -> relay_disabled p a = false ->
+    In (resolve_relay c p fbfee fbgas a) (pc_relays (resolve_with c p fbfee fbgas)).
+Proof. exact inherited_relay_present. Qed.
+Print Assumptions C10_inherited_relay_present.
+
+(* ------------------------------------------------------------------------------------------- *)
+(* Legacy version: proposer entry by key, else default, else fallback; gas limit alone falls back
+   field-wise; relays only when the builder is enabled. *)
+Theorem C10_v1_lookup :
+  forall (c : config1) (key fbfee fbgas : N),
+    proposer_config_v1 c key fbfee fbgas = resolve_v1 c key fbfee fbgas.
+Proof. exact v1_is_resolve. Qed.
+Print Assumptions C10_v1_lookup.
+
+Theorem C10_v1_lookup_cases :
+  forall (c : config1) (key fbfee fbgas : N),
+    let out := proposer_config_v1 c key fbfee fbgas in
+    let of_entry (q : proposer1) :=
+      pc_fee out = q_fee q /\
+      forall r, In r (pc_relays out) <->
+        exists b, q_builder q = Some b /\ b_enabled b = true /\ In (rc_addr r) (b_relays b) /\
+                  r = {| rc_addr := rc_addr r; rc_pk := None; rc_fee := q_fee q;
+                         rc_gas := if q_gas q =? 0 then fbgas else q_gas q;
+                         rc_grace := b_grace b; rc_min := dec_zero |} in
+    match aget (c1_props c) key with
+    | Some (Some q) => of_entry q
+    | Some None | None =>                      (* a null entry is no entry *)
+        match c1_default c with
+        | Some q => of_entry q
+        | None => out = {| pc_fee := fbfee; pc_relays := [] |}
+        end
+    end.
+Proof. exact v1_lookup_cases. Qed.
+Print Assumptions C10_v1_lookup_cases.
+
+(* the iteration order of the legacy proposer_config map is irrelevant *)
+Theorem C10_v1_map_order_irrelevant :
+  forall (c : config1) (ps' : list (N * option proposer1)) (key fbfee fbgas : N),
+    wf_config1 c -> Permutation (c1_props c) ps' ->
+    proposer_config_v1 {| c1_props := ps'; c1_default := c1_default c |} key fbfee fbgas =
+    proposer_config_v1 c key fbfee fbgas.
+Proof. exact v1_order_irrelevant. Qed.
+Print Assumptions C10_v1_map_order_irrelevant.
+
+(* docs/execlayer.md words the legacy precedence PER VALUE (entry, else default_config, else
+   fallback: [resolve_v1_doc]).  Full statement:
+     forall c key fbfee fbgas, proposer_config_v1 c key fbfee fbgas = resolve_v1_doc c key fbfee fbgas.
+   The code selects one whole entry, so this holds only for lookups whose key has no entry (or a
+   null one) or an entry with both a gas limit and a builder ... *)
+Theorem C10_v1_fieldwise_partial :
+  forall (c : config1) (key fbfee fbgas : N),
+    v1_entry_complete c key = true ->
+    proposer_config_v1 c key fbfee fbgas = resolve_v1_doc c key fbfee fbgas.
+Proof. exact v1_fieldwise_partial. Qed.
+Print Assumptions C10_v1_fieldwise_partial.
+
+(* ... and fails on the document's own example (an entry with only a fee recipient does not get
+   the builder of default_config).  Known finding C10-v1-entry-not-fieldwise. *)
+Theorem C10_v1_fieldwise_refuted :
+  exists (c : config1) (key fbfee fbgas : N),
+    proposer_config_v1 c key fbfee fbgas <> resolve_v1_doc c key fbfee fbgas.
+Proof. exact v1_fieldwise_refuted. Qed.
+Print Assumptions C10_v1_fieldwise_refuted.
+
+(* Either version behind the ExecutionConfigurator interface. *)
+Theorem C10_lookup_is_resolve :
+  forall (c : config) (v : validator) (fbfee fbgas : N),
+    wf_config c -> lookup c v fbfee fbgas = resolve c v fbfee fbgas.
+Proof. exact lookup_is_resolve. Qed.
+Print Assumptions C10_lookup_is_resolve.
+
+(* ------------------------------------------------------------------------------------------- *)
+(* Version dispatch: the "version" field alone selects the format (absent / 0: legacy, 2: v2,
+   anything else is refused), and an accepted document has the version of its format. *)
+Theorem C10_version_dispatch :
+  forall o,
+    unmarshal (JObj o) =
+      match field FVersion o with
+      | JNull | JNum 0 => option_map CV1 (config1_of_json (JObj o))
+      | JNum 2 => option_map CV2 (config2_of_json (JObj o))
+      | _ => None
+      end.
+Proof. exact unmarshal_dispatch. Qed.
+Print Assumptions C10_version_dispatch.
+
+Theorem C10_accepted_version :
+  forall j c, unmarshal j = Some c ->
+    exists o, j = JObj o /\
+      match c with
+      | CV1 _ => field FVersion o = JNull \/ field FVersion o = JNum 0
+      | CV2 _ => field FVersion o = JNum 2
+      end.
+Proof. exact unmarshal_version. Qed.
+Print Assumptions C10_accepted_version.
+
+(* ------------------------------------------------------------------------------------------- *)
+(* Marshal / unmarshal.  Leaf strings (hex, decimal digits, shopspring decimals, patterns) are
+   decoded by the harness with the project's own libraries; the model owns the structure
+   (omitempty, null / "" = absent, maps, arrays) and the numeric steps (ms <-> ns, ether <-> wei).
+   Every configuration unmarshal can produce is canonical ... *)
+Theorem C10_unmarshal_canonical :
+  forall j c, unmarshal j = Some c -> canon_config c.
+Proof. exact unmarshal_canon. Qed.
+Print Assumptions C10_unmarshal_canonical.
+
+(* an accepted legacy document has one entry per public key (two spellings of one key are refused),
+   so the hypothesis of the legacy theorems holds for whatever unmarshal returns *)
+Theorem C10_unmarshal_v1_wf :
+  forall j c, unmarshal j = Some (CV1 c) -> wf_config1 c.
+Proof. exact unmarshal_v1_wf. Qed.
+Print Assumptions C10_unmarshal_v1_wf.
+
+(* ... every canonical configuration comes back from marshal -> unmarshal as itself ... *)
+Theorem C10_marshal_unmarshal :
+  forall c, canon_config c -> unmarshal (marshal c) = Some c.
+Proof. exact marshal_unmarshal. Qed.
+Print Assumptions C10_marshal_unmarshal.
+
+(* ... so a configuration survives the round trip with the same meaning: every validator gets
+   the same settings (or the same error) from the re-read configuration, with every fallback. *)
+Theorem C10_roundtrip_meaning :
+  forall j c, unmarshal j = Some c ->
+    exists c', unmarshal (marshal c) = Some c' /\
+               forall v fbfee fbgas, lookup c' v fbfee fbgas = lookup c v fbfee fbgas.
+Proof. exact roundtrip_meaning. Qed.
+Print Assumptions C10_roundtrip_meaning.
+
+(* ------------------------------------------------------------------------------------------- *)
+(* The check itself.  [P_b] (evaluated on what the implementation returned, never through the
+   procedural model) being true means: a document without meaning was refused; otherwise every
+   validator got the settings of the documented precedence (same error; or same fee recipient and
+   the same relays up to order), --proposer-config-check shows those settings, and after
+   marshal -> unmarshal every validator gets them again. *)
+Theorem C10_P_b_sound : forall c : case, P_b c = true -> case_ok c.
+Proof. exact P_b_sound. Qed.
+Print Assumptions C10_P_b_sound.
+
+(* [agree] tests the theorems' hypothesis on every case: where it holds, the parsed configuration
+   has key-unique relay maps and the model's lookup is the documented precedence. *)
+Theorem C10_agree_wf :
+  forall (c : case) (cfg : config), agree c = true -> unmarshal (c_doc c) = Some cfg ->
+    wf_config cfg /\
+    forall v, lookup cfg v (c_fbfee c) (c_fbgas c) = resolve cfg v (c_fbfee c) (c_fbgas c).
+Proof. exact agree_wf. Qed.
+Print Assumptions C10_agree_wf.
+
+(* ------------------------------------------------------------------------------------------- *)
+(* Non-vacuity: the example the tests do not have — a proposer-level value, a relay-level default
+   and a proposer-relay override on one relay, a second (ignored) matching entry, a disabled
+   inherited relay and a new relay. *)
+Definition ex_br (fee gas : option N) : base_relay :=
+  {| br_pk := Some 7; br_fee := fee; br_gas := gas; br_grace := None; br_min := Some (5, 17%Z) |}.
+Definition ex_pr (dis : bool) (gas : option N) : prop_relay :=
+  {| pr_disabled := dis; pr_pk := None; pr_fee := None; pr_gas := gas; pr_grace := Some 2000000; pr_min := None |}.
+Definition ex_cfg : config2 :=
+  {| e_fee := Some 11; e_gas := None; e_grace := Some 1000000; e_min := None;
+     e_relays := [(1, ex_br (Some 12) (Some 100)); (2, ex_br None None)];
+     e_props := [ {| p_sel := SelAcct 5; p_fee := Some 13; p_gas := Some 200; p_grace := None; p_min := None;
+                     p_reset := false; p_relays := [(1, ex_pr false (Some 300)); (2, ex_pr true None); (3, ex_pr false None)] |};
+                  {| p_sel := SelKey 9; p_fee := Some 14; p_gas := None; p_grace := None; p_min := None;
+                     p_reset := true; p_relays := [] |} ] |}.
+
+Example C10_example_wf : wf_config2 ex_cfg.
+Proof.
+  split; [repeat constructor; cbn; intuition discriminate|].
+  repeat constructor; cbn; intuition discriminate.
+Qed.
+
+Example C10_example_lattice :
+  proposer_config_v2 ex_cfg {| v_key := 9; v_accts := [5] |} 99 30000000 =
+    Some {| pc_fee := 13;
+            pc_relays := [ {| rc_addr := 1; rc_pk := Some 7; rc_fee := 13; rc_gas := 300; rc_grace := 2000000; rc_min := (5, 17%Z) |};
+                           {| rc_addr := 3; rc_pk := None; rc_fee := 13; rc_gas := 200; rc_grace := 2000000; rc_min := dec_zero |} ] |}.
+Proof. reflexivity. Qed.
+
+Example C10_example_second_entry_alone :
+  proposer_config_v2 ex_cfg {| v_key := 9; v_accts := [] |} 99 30000000 = Some {| pc_fee := 14; pc_relays := [] |}.
+Proof. reflexivity. Qed.
+
+Example C10_example_error :
+  proposer_config_v2 (with_props ex_cfg [empty_proposer]) {| v_key := 9; v_accts := [] |} 99 1 = None.
+Proof. reflexivity. Qed.
+
+(* a document, its configuration, and the round trip *)
+Definition ex_doc : json :=
+  JObj [(FVersion, JNum 2); (FFee, JStr (LAddr 11)); (FGrace, JStr (LNum 1)); (FMin, JStr (LDec (5, (-1)%Z)));
+        (FRelays, JMap [(1, JObj [(FGas, JStr (LNum 100))]); (2, JObj [])]);
+        (FProposers, JArr [JObj [(FProposer, JStr (LRegex 5)); (FReset, JBool true);
+                                 (FRelays, JMap [(3, JObj [(FMin, JStr (LDec (123456789012345678, (-18)%Z)))])])]])].
+
+Example C10_example_roundtrip :
+  exists c, unmarshal ex_doc = Some (CV2 c) /\ wf_config2 c /\ e_min c = Some (5, 17%Z) /\
+            unmarshal (marshal (CV2 c)) = Some (CV2 c) /\
+            proposer_config_v2 c {| v_key := 1; v_accts := [5] |} 99 7 =
+              Some {| pc_fee := 11; pc_relays := [ {| rc_addr := 3; rc_pk := None; rc_fee := 11; rc_gas := 7;
+                                                      rc_grace := 1000000; rc_min := (123456789012345678, 0%Z) |} ] |}.
+Proof.
+  eexists. split; [reflexivity|]. split; [|split; [reflexivity|split; reflexivity]].
+  split; [repeat constructor; cbn; intuition discriminate|].
+  repeat constructor; cbn; intuition discriminate.
+Qed.
+
+Example C10_example_version_refused : unmarshal (JObj [(FVersion, JNum 1)]) = None.
+Proof. reflexivity. Qed.
+
+(* the same configuration with every relay map written in another order *)
+Definition ex_cfg_permuted : config2 :=
+  {| e_fee := Some 11; e_gas := None; e_grace := Some 1000000; e_min := None;
+     e_relays := [(2, ex_br None None); (1, ex_br (Some 12) (Some 100))];
+     e_props := [ {| p_sel := SelAcct 5; p_fee := Some 13; p_gas := Some 200; p_grace := None; p_min := None;
+                     p_reset := false; p_relays := [(3, ex_pr false None); (2, ex_pr true None); (1, ex_pr false (Some 300))] |};
+                  {| p_sel := SelKey 9; p_fee := Some 14; p_gas := None; p_grace := None; p_min := None;
+                     p_reset := true; p_relays := [] |} ] |}.
+
+Example C10_example_equiv : config2_equiv ex_cfg ex_cfg_permuted.
+Proof.
+  constructor; try reflexivity.
+  - cbn. apply perm_swap.
+  - cbn. constructor; [|constructor; [|constructor]].
+    + constructor; try reflexivity. cbn.
+      eapply perm_trans; [apply perm_swap|]. eapply perm_trans; [apply perm_skip, perm_swap|]. apply perm_swap.
+    + constructor; reflexivity.
+Qed.
+
+Example C10_example_permuted_outcome :
+  proposer_config_v2 ex_cfg_permuted {| v_key := 9; v_accts := [5] |} 99 30000000 =
+    Some {| pc_fee := 13;
+            pc_relays := [ {| rc_addr := 1; rc_pk := Some 7; rc_fee := 13; rc_gas := 300; rc_grace := 2000000; rc_min := (5, 17%Z) |};
+                           {| rc_addr := 3; rc_pk := None; rc_fee := 13; rc_gas := 200; rc_grace := 2000000; rc_min := dec_zero |} ] |}.
+Proof. reflexivity. Qed.
+
+(* the legacy per-value reading and the code on the document's own example *)
+Example C10_example_v1_fieldwise :
+  let c := {| c1_props := [(1, Some {| q_fee := 11; q_gas := 0; q_builder := None |})];
+              c1_default := Some {| q_fee := 12; q_gas := 0;
+                                    q_builder := Some {| b_enabled := true; b_grace := 0; b_relays := [1; 2] |} |} |} in
+  pc_relays (proposer_config_v1 c 1 99 30000000) = [] /\
+  map rc_addr (pc_relays (resolve_v1_doc c 1 99 30000000)) = [1; 2] /\
+  v1_entry_complete c 1 = false /\ v1_entry_complete c 2 = true.
+Proof. repeat split. Qed.
